@@ -37,10 +37,8 @@ fn object_iter<E: Encoding + Clone>(tokens: &[TextToken], r: &ObjectReader<E>) -
     let mut fpts = Vec::new();
     let mut rounds = 0;
     loop {
-        let (lo, hi) = fields.size_hint();
-        if hi.is_some() {
-            fused = false; // FieldsIter reports no upper bound
-        }
+        // only the lower bound is compared: any correct upper bound would be a harmless change
+        let (lo, _hi) = fields.size_hint();
         fpts.push(format!("{}/{}", lo, rem_str(tokens, &fields.remainder())));
         rounds += 1;
         if rounds > CAP || fields.next().is_none() {
@@ -84,9 +82,6 @@ fn object_iter<E: Encoding + Clone>(tokens: &[TextToken], r: &ObjectReader<E>) -
             }
             None => "-".to_string(),
         };
-        if groups.size_hint().1.is_some() {
-            fused = false;
-        }
         gpts.push(format!("{}/{}/{}", key, groups.size_hint().0, rem_str(tokens, &groups.remainder())));
         if g.is_none() {
             break;
